@@ -158,6 +158,9 @@ func fidelityMain(args []string) {
 						in, _ = os.ReadFile(filepath.Join(d, strings.TrimPrefix(p.Stdin.From, "file:")))
 					}
 				}
+				if p.Arg0 == "" {
+					p.Arg0 = s.Arg0
+				}
 				ro, err := runReal(bins[p.Bin], d, p, in)
 				if err != nil {
 					infra("fidelity: cannot run real binary: %v", err)
@@ -242,6 +245,9 @@ func realIsNondeterministic(bins map[string]string, dir string, s Session, i int
 				case strings.HasPrefix(p.Stdin.From, "file:"):
 					in, _ = os.ReadFile(filepath.Join(d, strings.TrimPrefix(p.Stdin.From, "file:")))
 				}
+			}
+			if p.Arg0 == "" {
+				p.Arg0 = s.Arg0
 			}
 			ro, err := runReal(bins[p.Bin], d, p, in)
 			if err != nil {
